@@ -208,7 +208,7 @@ theorem parseTxn_encode (t : FTxn) (pos : Nat) (more : Bytes) (h : TxnWF pos t) 
     rw [encodeTxn, hparts, take_append_eq hH, List.append_nil]
   have hhd : parseHdr ((encodeTxn t ++ more).take 23) =
       ⟨t.tid, t.tlen, t.status, t.user.length, t.desc.length, t.ext.length⟩ := by
-    rw [hhead]; exact parseHdr_encode _ _ _ _ _ _ _ (by omega) (by omega) h2 h5 h6 h7
+    rw [hhead]; exact parseHdr_encode _ _ _ _ _ _ _ (by omega) (by omega) (by omega) h5 h6 h7
   -- metadata
   have huser : ((encodeTxn t ++ more).drop 23).take t.user.length = t.user := by
     rw [encodeTxn, hparts]; exact slice_mid _ _ _ hH rfl
